@@ -15,7 +15,8 @@ PROPERTY = "C05"
 LEVEL = "exploration"
 RULE = (
     "Hypothesis operation lists (<=25 quick, <=60 thorough) over one real endpoint (both roles) whose journal starts at drawn "
-    "counters (1, 2, 999, 2^31-1, 2^31, 2^62 ...): application sends of every class (NewOrderSingle with and without groups, "
+    "counters (1, 2, 999, 2^31-1, 2^31, 2^62 ...): application sends of every class (NewOrderSingle with and without groups, forwarded "
+    "message objects that still carry a stale MsgSeqNum / PossDupFlag=N / foreign CompIDs, "
     "Heartbeat, TestRequest through send_msg (must be refused) and through send_test_req, Logon, Logout, ResendRequest, Reject, "
     "SequenceReset and PossDup retransmissions carrying their own number), in every state reached (before Logon, after Logon, "
     "awaiting a resend, disconnected); inbound frames that make the library send (Logon, TestRequest, a gap, a peer ResendRequest "
@@ -30,7 +31,7 @@ ASSUMPTIONS = [
     "journal read back through a second load path (create_or_load on the same journal)",
 ]
 STARTS = [1, 2, 7, 999, 2**31 - 1, 2**31, 2**62]
-SEND = ["D", "Dg", "0", "1", "A", "5", "2", "3", "4own", "PD"]
+SEND = ["D", "Dg", "0", "1", "A", "5", "2", "3", "4own", "PD", "D43N", "D34"]
 INB = ["logon", "TR", "GAP", "RR", "HB", "LOW", "BADCOMP", "APP"]
 op = st.one_of(
     st.tuples(st.just("send"), st.sampled_from(SEND)),
@@ -54,6 +55,11 @@ def make_msg(cls, uid, N):
         if cls == "Dg":
             m.set_group(453, [{448: "p1", 447: "D", 452: 1}, {448: "p2", 447: "D", 452: 3}])
         return m
+    if cls == "D43N":
+        # a forwarded / echoed message object: explicit PossDupFlag=N and a stale MsgSeqNum tag -> still a NEW message
+        return FIXMessage(FMsg.NEWORDERSINGLE, {11: f"e{uid}", 43: "N", 34: max(N - 1, 1), 52: "20200101-00:00:00.000"})
+    if cls == "D34":
+        return FIXMessage(FMsg.EXECUTIONREPORT, {37: "o", 17: f"x{uid}", 34: max(N - 3, 1), 49: "SOMEONE", 56: "ELSE"})
     if cls == "0":
         return FIXMessage(FMsg.HEARTBEAT)
     if cls == "1":
